@@ -275,7 +275,11 @@ class Pattern:
             return Pattern.value(next(v))
         # Should lists/dicts be handled similarly?
         elif isinstance(v, tuple):
-            return tuple(Pattern.value(element) for element in v)
+            #------------------------------------------------------------------------
+            # Evaluate greedily: inside a generator expression, the StopIteration of
+            # a finite pattern would be turned into a RuntimeError.
+            #------------------------------------------------------------------------
+            return tuple([Pattern.value(element) for element in v])
         else:
             return v
 
